@@ -6,6 +6,7 @@ import (
 	"fmt"
 	"math"
 	"math/rand"
+	"strings"
 	"sync"
 
 	modbus "github.com/aldas/go-modbus-client"
@@ -210,6 +211,46 @@ func runHistory(c *Case, r *mon.Rec, payload []byte, ops []Op) {
 	}
 }
 
+// runChained: reads written the chained way, view.WithByteOrder(o).X(addr), on ONE view. Each read names its order, so its
+// result is a function of (o, X, addr) and the payload alone - whatever orders the reads before it selected. Orders
+// include the incomplete values a caller may pass (only an endianness: 1, 2; only a word order: 4, 8, 12; none: 0).
+func runChained(c *Case, r *mon.Rec, rng *rand.Rand, payload []byte) {
+	_, view, _, err := parsed(c, payload)
+	if err != nil {
+		return
+	}
+	orders := []packet.ByteOrder{0, 1, 2, 4, 5, 6, 8, 9, 10, 12}
+	var plain []int
+	for i, v := range variants {
+		if !strings.Contains(v.name, "/") {
+			plain = append(plain, i)
+		}
+	}
+	var hist []string
+	for i := 0; i < 10; i++ {
+		o := orders[rng.Intn(len(orders))]
+		v := plain[rng.Intn(len(plain))]
+		addr := c.Start + rng.Intn(c.Regs)
+		got, pn := callV(v, view.WithByteOrder(o), addr)
+		if pn {
+			continue
+		}
+		_, fresh, _, err := parsed(c, payload)
+		if err != nil {
+			return
+		}
+		want, _ := callV(v, fresh.WithByteOrder(o), addr)
+		r.Eval(1)
+		if got != want {
+			r.Violate(c, "result-depends-on-history", mon.Attrs{"accessor": "WithByteOrder(o)." + variants[v].name, "order": int(o)},
+				fmt.Sprintf("view.WithByteOrder(%d).%s(%d) returned %s after the chained reads %v on the same view, %s on a fresh view", o, variants[v].name, addr, got, hist, want))
+			return
+		}
+		hist = append(hist, fmt.Sprintf("WithByteOrder(%d).%s@%d", o, variants[v].name, addr))
+	}
+	r.Cover("history", "chained WithByteOrder(o).X(addr) reads")
+}
+
 func names(ops []Op) []string {
 	var out []string
 	for _, o := range ops {
@@ -242,6 +283,7 @@ func run(ci any, r *mon.Rec) {
 		}
 	case "history":
 		runHistory(c, r, payload, c.Ops)
+		runChained(c, r, rng, payload)
 		h := uint64(2)
 		for _, o := range c.Ops {
 			h = mon.Mix(h, uint64(o.V), uint64(o.Addr-c.Start+2))
